@@ -182,6 +182,17 @@ fn run_once(case: &Case) -> Result<Result<Vec<String>, (String, String)>, String
 			}
 		}
 	}
+	// certificates written side by side in one directory: every one of them ends up next to its own key
+	for i in 0..n {
+		let crt = std::fs::read(lay.certs.join(format!("c{i}_ecdsa-p256.crt.pem"))).ok();
+		let key = std::fs::read(lay.certs.join(format!("c{i}_ecdsa-p256.pk.pem"))).ok();
+		if crt.is_none() {
+			return Ok(Err(("C12:certificate-missing".into(), format!("certificate c{i} reports success but has no certificate file; {d}"))));
+		}
+		if let Err((sig, detail)) = crate::props::c03::pair_state(&crt, &key) {
+			return Ok(Err((sig.replace("C03:", "C12:files-"), format!("certificate c{i} after the concurrent renewals: {detail}; {d}"))));
+		}
+	}
 	for (e, ca) in cas.iter().enumerate() {
 		let snap = ca.snapshot();
 		if let Some(ev) = snap.events.iter().find(|ev| ev.code.starts_with("nonce-")) {
@@ -235,7 +246,7 @@ fn exec(case: &Case) -> Outcome {
 }
 
 pub fn run(ctx: &Ctx, rep: &mut Report) {
-	rep.rule = "2..8 certificates over 1..3 accounts and 1..3 endpoints in random sharing patterns, per-response delays 0..40 ms from the seeded plan, TOKIO_WORKER_THREADS in {1,2,4,16}, CAs with/without nonces on GET; scenario: concurrent first registration alone, or followed by a second run in which all certificates renew at once after the CA forgot the accounts / the contacts / the key type / both were edited (the paths that take the account write lock), or nothing was edited at all (no account request expected); a third of the cases use accounts with an external account binding; in a third of the first-registration cases the accounts directory is removed right after start-up, so that no registration can be stored (each must still happen once); in a third of the cases 1..2 answers to POSTs are cut in the middle of the body after complete headers (the renewal hit fails and is repeated; the nonce chain of the shared endpoint must stay fresh). Oracle: every certificate reaches its post-operation record (60 s watchdog vs ~1 s typical, a hit is re-run once), every renewal succeeds, newAccount / key-change / contact-update counts per (account, endpoint) are exactly the model's, the CA's nonce ledger shows no unknown or re-used nonce (in particular none consumed by two certificates). Non-trivial = >= 2 certificates share an account and an endpoint.".into();
+	rep.rule = "2..8 certificates over 1..3 accounts and 1..3 endpoints in random sharing patterns, per-response delays 0..40 ms from the seeded plan, TOKIO_WORKER_THREADS in {1,2,4,16}, CAs with/without nonces on GET; scenario: concurrent first registration alone, or followed by a second run in which all certificates renew at once after the CA forgot the accounts / the contacts / the key type / both were edited (the paths that take the account write lock), or nothing was edited at all (no account request expected); a third of the cases use accounts with an external account binding; in a third of the first-registration cases the accounts directory is removed right after start-up, so that no registration can be stored (each must still happen once); in a third of the cases 1..2 answers to POSTs are cut in the middle of the body after complete headers (the renewal hit fails and is repeated; the nonce chain of the shared endpoint must stay fresh). Oracle: every certificate reaches its post-operation record (60 s watchdog vs ~1 s typical, a hit is re-run once), every renewal succeeds and leaves its certificate next to its own key (all certificates live in one directory), newAccount / key-change / contact-update counts per (account, endpoint) are exactly the model's, the CA's nonce ledger shows no unknown or re-used nonce (in particular none consumed by two certificates). Non-trivial = >= 2 certificates share an account and an endpoint.".into();
 	rep.assume("the harness perturbs but does not own the schedule (tokio tasks interleave at await points, which the response delays move); a seed reproduces the plan, not necessarily the interleaving");
 	run_replays::<Case>(ctx, rep, "bb", &exec);
 	if ctx.replay.is_some() {
